@@ -67,6 +67,10 @@ def run(tier, seed):
     c13.design(rep, tier, table=KNN_DESIGN)
     H.import_opfython()
     out, items = F.run_items(rep, sup_scenarios(rep, tier, seed), PIDS, "c04s")
+    lt = S.learn_traces(random.Random(seed + 4343), 300 if tier == "thorough" else 50)
+    if lt:
+        S.judge(rep, lt, "c04learn", PIDS, want_m=False)
+        rep.cov["forests_left_by_learn_judged"] = len(lt)
     rep.cov["tiefree_traces"] = out.get("tiefree", 0)
     if out.get("tiefree", 0) < 20:
         raise H.MachineryError("vacuous: only %d tie-free supervised traces" % out.get("tiefree", 0))
